@@ -266,7 +266,9 @@ CLAIMED["C12"] = dict(
     "_remove_trailing_empty_block); a return, call or branch ends its block (the step ends with _split_block); the "
     "edges added are exactly the ones the kind demands (Return to a proxy allocated by the step and no fallthrough; "
     "one Branch/Call edge, conditional iff jcc, direct iff not indirect, to a proxy allocated by the step when "
-    "indirect, followed by a Fallthrough to the fresh block exactly for call and jcc); a label's block starts at "
+    "indirect, followed by a Fallthrough to the fresh block exactly for call and jcc); the proxy of a return or an "
+    "indirect transfer is fresh (invariant over all reachable states: no earlier edge and no symbol leads to the "
+    "number the allocator hands out next); a label's block starts at "
     "the end of the data with a fallthrough edge from the current block. Tie: the real Assembler on generated texts "
     "for X64 (AT&T, Intel), IA32, ARM64, MIPS32, ELF and PE, trivially_unreachable on and off; its _Streamer entry "
     "points are wrapped to record the event stream, the model is run on it and the two Results compared. Oracle: "
